@@ -197,7 +197,7 @@ class Ctx:
 
     # ---------------------------------------------------------------- running
     def run_harness(self, b, exe, harness, shards=None, cases=None, extra_args=(), timeout=1800, prop=None,
-                    env_extra=None, wrapper=(), only=None):
+                    env_extra=None, wrapper=(), only=None, crash_key_cfg=False):
         """Run `exe` sharded; parse records; route crashes.  Returns dict of counters of this run."""
         shards = shards or NCPU
         if only is not None:
@@ -271,6 +271,8 @@ class Ctx:
                     self.inconclusive.append('%s on %s: %s' % (harness, b.name, err.strip()[-300:]))
                     continue
                 kind, vprop = classify_crash(rc, err)
+                if crash_key_cfg and kind.startswith('crash'):
+                    kind = kind + ':' + b.cfg.name
                 self.violations.append(Violation(vprop or prop, '%s:%s' % (kind, _cls(where) if kind.startswith('crash') else harness),
                                                  {'build': b.name, 'exit': rc, 'progress': where,
                                                   'stderr_tail': err.strip()[-3000:]}, build=b, harness=harness,
